@@ -158,6 +158,12 @@ def predicate(c, out):
         return (key_of(c, "nan"), "output contains NaN/inf")
     if not out["grad_finite"]:
         return (key_of(c, "gradient"), "jax.grad of sum(output) w.r.t. the design is not finite")
+    ab = out.get("array_beta")
+    if ab is not None:
+        if not ab["grad_finite"] or not ab["traced_grad_finite"]:
+            return (key_of(c, "gradient-array-beta"), f"gradient is not finite when beta is passed as a jax array / traced value: {ab}")
+        if ab["value_diff"] > 1e-12 or ab["grad_diff"] > 1e-9 or ab["traced_grad_diff"] > 1e-9:
+            return (key_of(c, "array-beta-differs"), f"values / gradients differ between a Python-float beta and an array / traced beta: {ab}")
     beta, eta = c["beta"], float(c["eta"])
     x = np.asarray(un(c["x"])).reshape(c["shape"])
     y = np.asarray(un(out["y"])).reshape(c["shape"])
